@@ -4,7 +4,7 @@
     by the extracted OCaml runner, so the two evaluation routes check each other.
     Nothing in this file is used by a theorem. *)
 From Coq Require Import String.
-From OtpV Require Import Prelude Sha Tables Errors Decoder Derive Otp Ocra Rfc4226 Rfc6287 Rfc4648 Utils Random.
+From OtpV Require Import Prelude Sha Tables Errors Decoder Derive Otp Ocra Rfc4226 Rfc6287 Rfc4648 Utils Random Suite SuiteName.
 Open Scope string_scope.
 Open Scope N_scope.
 Open Scope list_scope.
@@ -90,7 +90,47 @@ Definition period_of (p : option param) : N :=
 
 Definition two62z : Z := 4611686018427387904%Z.
 
-Definition run_fields4 (f : list bytes) : bytes * bool := (s2b "unknown-op", true).
+(** ---- suite registry and parser (C15) ---- *)
+Definition b01 (b : bool) : bytes := if b then [49] else [48].
+Definition suite_text (c : suite_cfg) : bytes :=
+  s2b "x" ++ hex_of (sc_raw c) ++ [44] ++ dec_of_N (sc_hash c) ++ [44] ++ dec_of_Z (sc_digits c) ++ [44] ++ dec_of_Z (sc_challenge c)
+  ++ [44] ++ b01 (sc_c c) ++ [44] ++ b01 (sc_q c) ++ [44] ++ b01 (sc_p c) ++ [44] ++ b01 (sc_s c) ++ [44] ++ b01 (sc_t c)
+  ++ [44] ++ dec_of_Z (sc_pwhash c) ++ [44] ++ dec_of_Z (sc_timestep c).
+Definition r_suite (o : outcome suite_cfg) : bytes :=
+  match o with Ok c => s2b "cfg:" ++ suite_text c | Err e => r_err e | Panic => s2b "panic" end.
+
+(** the model's ToUpper is exact for ASCII text and the two runes that upper-case to ASCII *)
+Fixpoint upper_exact (s : bytes) : bool :=
+  match s with
+  | [] => true
+  | 197 :: 191 :: t => upper_exact t
+  | 196 :: 177 :: t => upper_exact t
+  | c :: t => (c <? 128) && upper_exact t
+  end.
+
+Fixpoint bytes_leb (a b : bytes) : bool :=
+  match a, b with
+  | [], _ => true
+  | _ :: _, [] => false
+  | x :: a', y :: b' => if x <? y then true else if y <? x then false else bytes_leb a' b'
+  end.
+Fixpoint insert_sorted (x : bytes) (l : list bytes) : list bytes :=
+  match l with
+  | [] => [x]
+  | y :: t => if bytes_leb x y then x :: l else y :: insert_sorted x t
+  end.
+Definition sort_names (l : list bytes) : list bytes := fold_right insert_sorted [] l.
+
+Definition run_fields4 (f : list bytes) : bytes * bool :=
+  let a i := fld f i in
+  let op := a 0%nat in
+  if bytes_eqb op (s2b "nraw") then (r_suite (new_raw_suite (unhx (a 1%nat))), upper_exact (unhx (a 1%nat)))
+  else if bytes_eqb op (s2b "praw") then (r_suite (parse_raw_suite (unhx (a 1%nat))), upper_exact (unhx (a 1%nat)))
+  else if bytes_eqb op (s2b "nsuite") then (r_suite (new_suite (parse_suite (a 1%nat))), true)
+  else if bytes_eqb op (s2b "known") then (s2b "ok:n" ++ (if is_known_suite (unhx (a 1%nat)) then [49] else [48]), true)
+  else if bytes_eqb op (s2b "fromraws") then (s2b "cfg:" ++ suite_text (suite_config_from_raws (unhx (a 1%nat))), true)
+  else if bytes_eqb op (s2b "listsuites") then (s2b "ok:" ++ join 44 (sort_names list_suites), true)
+  else (s2b "unknown-op", true).
 
 (** [scan <case>]: harness self-check that the error text of the inner case discloses neither
     secret nor expected code; the model's answer is the constant "clean" (C13 theorems). *)
@@ -247,6 +287,14 @@ Definition spec_fields (f : list bytes) : option bytes :=
             | Ok code => if bytes_eqb code (unhx (a 2%nat)) then s2b "v:true:-" else s2b "v:false:*"
             | _ => s2b "v:false:*" end)
     else None
+  else if bytes_eqb op (s2b "nraw") || bytes_eqb op (s2b "praw") then
+    let raw := unhx (a 1%nat) in
+    match read_name raw with
+    | Some ast =>
+      let '(h, d, ch, c, q, p, s_, t, pw, ts) := denote ast in
+      Some (s2b "maybe:cfg:" ++ suite_text (mkSuite raw h d ch c q p s_ t pw ts))
+    | None => None
+    end
   else if bytes_eqb op (s2b "mod10") then
     let i := parse_N (a 1%nat) in if (1 <=? i) && (i <=? 10) then Some (s2b "ok:n" ++ dec_of_N (10 ^ i)) else None
   else if bytes_eqb op (s2b "trunc") then
